@@ -98,17 +98,72 @@ def tlc_prints(out, tag):
     return res
 
 
-def export_cases(sc, name, family_expr, extends='WireFamilies', timeout=1800):
-    """Have TLC enumerate a family and write one case per line. Returns list of dicts."""
-    out = sc.path(name + '.cases.ndjson')
-    mod = ('---- MODULE %s ----\nEXTENDS %s, Json\n'
-           'ASSUME ndJsonSerialize("%s", SetToSeq({Case(P) : P \\in %s}))\n====\n') % (name, extends, out, family_expr)
-    rc, o, dt = tlc(sc, name, mod, '', workers=1, timeout=timeout)
-    if rc != 0 or not os.path.exists(out):
-        raise Broken('TLC export of %s failed (rc=%s): %s' % (family_expr, rc, o[-3000:]))
-    cases = [json.loads(l) for l in open(out) if l.strip()]
-    log('exported %d cases of %s in %.1fs' % (len(cases), family_expr, dt))
+def export_programs(sc, name, family, extends='WireFamilies', timeout=1800):
+    """Pass 1: TLC enumerates the family as initial states and prints each program as JSON.
+    `family` is either a TLA+ set expression or an Init predicate over the variable p
+    (text containing "p ="/"p \\in" - recognised by the substring "(p,")."""
+    init = family if '(p,' in family else 'p \\in ' + family
+    mod = ('---- MODULE %s ----\nEXTENDS %s, Json\nVARIABLE p\nInit == %s\nNext == UNCHANGED p\n'
+           'Emit == PrintT(ToJson(p))\n====\n') % (name, extends, init)
+    cfg = 'INIT Init\nNEXT Next\nINVARIANT Emit\nCHECK_DEADLOCK FALSE\n'
+    rc, o, dt = tlc(sc, name, mod, cfg, workers=1, timeout=timeout)
+    if rc != 0:
+        raise Broken('TLC enumeration of %s failed (rc=%s): %s' % (family, rc, o[-3000:]))
+    progs = {}
+    for line in o.splitlines():
+        if line.startswith('"{'):
+            pr = json.loads(json.loads(line))
+            progs[pr['key']] = pr
+    progs = [progs[k] for k in sorted(progs)]
+    if not progs:
+        raise Broken('TLC enumeration of %s produced nothing: %s' % (family, o[-2000:]))
+    log('enumerated %d programs of %s in %.1fs' % (len(progs), family, dt))
+    return progs
+
+
+def compute_expect(sc, name, progs, extends='WireFamilies', timeout=3600, par=None):
+    """Pass 2: TLC evaluates WireSem on each program (Case(P)); chunks run as parallel TLC processes."""
+    if not progs:
+        return []
+    par = par or max(1, min(NCPU, (len(progs) + 199) // 200))
+    size = (len(progs) + par - 1) // par
+    chunks = [progs[i:i + size] for i in range(0, len(progs), size)]
+
+    def one(ix):
+        nm = '%s_%d' % (name, ix)
+        inp = sc.path(nm + '.in.ndjson')
+        out = sc.path(nm + '.out.ndjson')
+        with open(inp, 'w') as f:
+            for p in chunks[ix]:
+                f.write(json.dumps(p) + '\n')
+        mod = ('---- MODULE %s ----\nEXTENDS %s, Json\nProgs == ndJsonDeserialize("%s")\n'
+               'ASSUME ndJsonSerialize("%s", [i \\in DOMAIN Progs |-> Case(Progs[i])])\n====\n') % (nm, extends, inp, out)
+        rc, o, dt = tlc(sc, nm, mod, '', workers=1, timeout=timeout)
+        if rc != 0 or not os.path.exists(out):
+            raise Broken('TLC evaluation of WireSem failed (rc=%s): %s' % (rc, o[-3000:]))
+        res = [json.loads(l) for l in open(out) if l.strip()]
+        shutil.rmtree(sc.path('tlc-' + nm), ignore_errors=True)
+        return res
+    t0 = time.time()
+    with ThreadPoolExecutor(len(chunks)) as ex:
+        parts = list(ex.map(one, range(len(chunks))))
+    cases = [c for p in parts for c in p]
+    if len(cases) != len(progs):
+        raise Broken('WireSem evaluation lost cases')
+    log('WireSem evaluated on %d programs in %.1fs (%d TLC processes)' % (len(cases), time.time() - t0, len(chunks)))
     return cases
+
+
+def export_cases(sc, name, family_expr, extends='WireFamilies', timeout=1800, pre_sample=None, seed=1):
+    """Enumerate a family with TLC, optionally sample programs by seed, evaluate WireSem on them."""
+    progs = export_programs(sc, name, family_expr, extends, timeout)
+    total = len(progs)
+    if pre_sample and len(progs) > pre_sample:
+        rnd = random.Random(seed)
+        progs = rnd.sample(progs, pre_sample)
+        progs.sort(key=lambda p: p['key'])
+    cases = compute_expect(sc, name + 'x', progs, extends, timeout)
+    return cases, total
 
 
 def sample(cases, k, seed, must=lambda c: False):
